@@ -1,6 +1,7 @@
 package main
 
 import (
+	"os"
 	"fmt"
 	"go/token"
 	"go/types"
@@ -279,7 +280,13 @@ func c09r4(r *R) {
 		if !ok || describe(st.Addr) != "$0.connectionWindowSize" {
 			return
 		}
-		r.check(guardedBy(st.Block(), eq("($1.FrameHeader.StreamID == 0)")), "updateWindow#connection-credit-guard", st.Pos(), "connection window credited only for stream 0", "connection window credited for a stream-level WINDOW_UPDATE")
+		streamZero := false // the test may stand at the call site of a helper the branch was moved into
+		for _, g := range guardsAt(st) {
+			if g == "($1.FrameHeader.StreamID == 0)" {
+				streamZero = true
+			}
+		}
+		r.check(streamZero, "updateWindow#connection-credit-guard", st.Pos(), "connection window credited only for stream 0", "connection window credited for a stream-level WINDOW_UPDATE")
 	})
 	// (b) peer routing in processFrame
 	pf := r.method(h2pkg, "relay", "processFrame")
@@ -825,11 +832,13 @@ func c10r2(r *R) {
 				}
 				// the case body may have been moved into a method of its own
 				if g := staticCallee(c.Common()); g != nil && isNewHelper(g) {
-					eachInstr(g, func(hi ssa.Instruction) {
-						if hc, ok := hi.(*ssa.Call); ok && isFwd(calleeName(hc.Common())) {
-							forwards = true
-						}
-					})
+					for _, h := range append([]*ssa.Function{g}, funcArgs(c.Common())...) { // and what it is handed to run
+						eachInstr(h, func(hi ssa.Instruction) {
+							if hc, ok := hi.(*ssa.Call); ok && isFwd(calleeName(hc.Common())) {
+								forwards = true
+							}
+						})
+					}
 				}
 			}
 			for _, s := range b.Succs {
@@ -1031,11 +1040,19 @@ func c10r6(r *R) {
 	}
 	got := map[string]bool{}
 	var settingsCall *ssa.Call
+	var settingsGuards []string
+	var settingsArg string
 	eachInstr(pf, func(ins ssa.Instruction) {
 		if c, ok := ins.(*ssa.Call); ok {
 			got[describe(c)] = true
+			if os.Getenv("FWD_DBG") != "" && strings.Contains(describe(c), "WritePing") {
+				fmt.Fprintln(os.Stderr, "DBG", describe(c))
+			}
 			if calleeName(c.Common()) == "(*golang.org/x/net/http2.Framer).WriteSettings" {
 				settingsCall = c
+				// read here: the call may sit in a literal handed to a helper, scanned in place
+				settingsGuards = guardsAt(c)
+				settingsArg = describe(refArgs(c.Common())[1])
 			}
 		}
 	})
@@ -1060,15 +1077,18 @@ func c10r6(r *R) {
 				uncond = len(va) == 1 && (describe(va[0]) == "$0" || describe(va[0]) == "local:s") && !avoid
 			}
 		})
-		sa := describe(refArgs(settingsCall.Common())[1])
+		sa := settingsArg
 		good = uncond && strings.HasPrefix(sa, "local:settings") || uncond && sa != ""
-		guard := guardedBy(settingsCall.Block(), func(s string) bool {
-			return strings.Contains(s, "ForeachSetting") && strings.HasPrefix(s, "!") && strings.HasSuffix(s, "!= nil)")
-		})
+		guard := false
+		for _, s := range settingsGuards {
+			if strings.Contains(s, "ForeachSetting") && strings.HasPrefix(s, "!") && strings.HasSuffix(s, "!= nil)") {
+				guard = true
+			}
+		}
 		good = good && guard
 		// ... and by nothing else: a further condition (number of settings, values) would swallow some SETTINGS frames,
 		// and the peer would wait for an acknowledgement that never comes
-		for _, g := range guardStrings(settingsCall.Block()) {
+		for _, g := range settingsGuards {
 			gg := strings.TrimLeft(g, "!")
 			isTypeCase := isFrameTypeCase(gg)
 			if !(isTypeCase || strings.Contains(gg, "IsAck(") || strings.Contains(gg, "ForeachSetting(")) {
